@@ -57,8 +57,8 @@ fn infer_unary_expr_not(inner_type: LuaType) -> InferResult {
 
 fn infer_unary_expr_unm(db: &DbIndex, inner_type: LuaType) -> InferResult {
     match inner_type {
-        LuaType::IntegerConst(i) => Ok(LuaType::IntegerConst(-i)),
-        LuaType::DocIntegerConst(i) => Ok(LuaType::DocIntegerConst(-i)),
+        LuaType::IntegerConst(i) => Ok(LuaType::IntegerConst(i.wrapping_neg())),
+        LuaType::DocIntegerConst(i) => Ok(LuaType::DocIntegerConst(i.wrapping_neg())),
         LuaType::FloatConst(f) => Ok(LuaType::FloatConst(-f)),
         LuaType::Integer => Ok(LuaType::Integer),
         _ => infer_unary_custom_operator(db, &inner_type, LuaOperatorMetaMethod::Unm),
